@@ -76,6 +76,13 @@ func TestVerifSys(t *testing.T) {
 		run(Decorated(r.Rng))
 		run(Gated(r.Rng))
 	}
+	// API discovery degraded during some passes: REST-mapper lookups of some kinds fail with a
+	// transient (non-NoMatch) error — in roll-out and in teardown passes, incl. ObjectSets listing
+	// objects they may never touch that exist carrying a reference to them (gen_env.go: MapFaulted)
+	n = r.Pick(500, 4000)
+	for i := 0; i < n; i++ {
+		run(MapFaulted(r.Rng))
+	}
 }
 
 // TestVerifSysSlices (property C04, stream "slices"): rolled-out ObjectSets keeping objects in
